@@ -40,6 +40,8 @@ impl Prop for C04 {
     }
     fn exec(&self, c: &StoreCase, ctx: &mut Ctx) -> Option<Violation> {
         let mut db = SparqlDatabase::new();
+        // identifiers double as dictionary terms ("t<k>" <-> k) so that string-level read paths (QueryBuilder) can be driven too
+        { let mut d = db.dictionary.write().unwrap(); for k in 0..1010u32 { let id = d.encode(&format!("t{}", k)); debug_assert_eq!(id, k); } }
         let mut quads: BTreeSet<Q> = BTreeSet::new(); let mut cat: BTreeSet<u32> = BTreeSet::new();
         let mut pr = Rng::new(c.probe_seed);
         let graphs: Vec<GraphId> = (0..=c.ngraphs).map(gid).collect();
@@ -90,6 +92,10 @@ impl Prop for C04 {
                     if r.len() != rs.len() || rs != m { bad!("query-merged", "after op {} {:?}: query_merged_graphs({:?}; {:?},{:?},{:?}) returns {} (distinct {}), expected {}", i, op, src, bs, bp, bo, r.len(), rs.len(), m.len()); }
                     let r = di.query_default(bs, bp, bo); let rs: BTreeSet<(u32, u32, u32)> = r.iter().map(|t| (t.subject, t.predicate, t.object)).collect(); let m: BTreeSet<(u32, u32, u32)> = quads.iter().filter(|q| q.3 == GraphId::Default && mt(q)).map(|q| (q.0, q.1, q.2)).collect();
                     if r.len() != rs.len() || rs != m { bad!("query-default", "after op {} {:?}: query_default({:?},{:?},{:?}) returns {}, expected {}", i, op, bs, bp, bo, r.len(), m.len()); }
+                    // string-level read path of query_builder.rs over the default graph
+                    { let mut qb = kolibrie::query_builder::QueryBuilder::new(&db); if let Some(x) = bs { qb = qb.with_subject(&format!("t{}", x)); } if let Some(x) = bp { qb = qb.with_predicate(&format!("t{}", x)); } if let Some(x) = bo { qb = qb.with_object(&format!("t{}", x)); }
+                      let got: BTreeSet<(u32, u32, u32)> = qb.get_triples().into_iter().map(|t| (t.subject, t.predicate, t.object)).collect(); if got != m { bad!("query-builder", "after op {} {:?}: QueryBuilder({:?},{:?},{:?}).get_triples() returns {} triples, the default graph holds {} matching", i, op, bs, bp, bo, got.len(), m.len()); } }
+                    { let r3 = db.query_default_triples(bs, bp, bo); let s3: BTreeSet<(u32, u32, u32)> = r3.iter().map(|t| (t.subject, t.predicate, t.object)).collect(); if r3.len() != s3.len() || s3 != m { bad!("query-default", "after op {} {:?}: SparqlDatabase::query_default_triples returns {}, expected {}", i, op, r3.len(), m.len()); } }
                     let tp = (bs.map_or(Term::Variable("s".into()), Term::Constant), bp.map_or(Term::Variable("p".into()), Term::Constant), bo.map_or(Term::Variable("o".into()), Term::Constant));
                     let r2 = di.get_matching_triples(&tp); if r2.len() != m.len() { bad!("query-default", "after op {} {:?}: get_matching_triples returns {}, expected {}", i, op, r2.len(), m.len()); }
                 }
@@ -114,5 +120,5 @@ impl Prop for C04 {
     }
     fn rule(&self) -> String { "A case is one history of 10-200 store operations (insert/delete quad and triple, create/clear/drop graph, clear, index rebuild, clone, serde round trip) over a small (3x2x3 terms) or larger (14x5x14) universe and 3 named graphs + default; after every operation all lookup shapes (8 bound/unbound shapes x every graph, named-graph and merged-graph queries with PRNG-chosen visibility sets, membership, graph listing, lengths) are compared with the abstract quad set and catalog and checked for duplicates. Non-trivial = at least 10 operations ending non-empty; distinct = hash of the operation list.".into() }
     fn assumptions(&self) -> Vec<String> { vec!["no fault or scheduling dimension exists for this property: the simulator owns only the history, the hash seed and where rebuilds fall (weak fit, see DESIGN.md section 0)".into()] }
-    fn real_vs_stub(&self) -> serde_json::Value { serde_json::json!({"real": ["shared::dataset_index::DatasetIndex (all mutators and lookups)", "SparqlDatabase::{build_all_indexes, add_triple}"], "simulated": ["hash keys"], "not_run": ["query_builder"]}) }
+    fn real_vs_stub(&self) -> serde_json::Value { serde_json::json!({"real": ["shared::dataset_index::DatasetIndex (all mutators and lookups)", "SparqlDatabase::{build_all_indexes, add_triple, query_default_triples}", "QueryBuilder::{with_subject, with_predicate, with_object, get_triples}"], "simulated": ["hash keys"], "not_run": ["QueryBuilder joins / streaming"]}) }
 }
